@@ -17,6 +17,8 @@ def main():
     tier = os.environ.get('VERIF_TIER') or ('thorough' if mode == '--thorough' else 'quick')
     if mode == '--thorough':
         tier = 'thorough'
+    if tier == 'thorough':
+        os.environ.setdefault('VERIF_COQCHK', '1')
     seed = int(os.environ.get('VERIF_SEED', '1'))
     mod = importlib.import_module('props.' + pid.lower())
     if mode == '--replay':
